@@ -131,9 +131,11 @@ func genRequest(r *rng, adversarial bool) (uint8, interface{}) {
 }
 
 type k4Conn struct {
-	peer  *rawPeer
-	id    int
-	bound map[uint64]bool
+	// faultFid: the fid of the last request that was refused after reaching the backend (-1: none)
+	faultFid int64
+	peer     *rawPeer
+	id       int
+	bound    map[uint64]bool
 	// stopped: the connection already ended and its k4stop line was emitted
 	stopped bool
 	// msize announced by the server in its last Rversion (0: none yet)
@@ -212,7 +214,7 @@ func runK4(r *rng, n int, adversarial bool) {
 		cf := r.chance(1, 3)
 		be := newBackend(&rng{s: r.next()}, errPm, panicPm, cf)
 		srv := p9.NewServer(be)
-		conns := []*k4Conn{{peer: newServerPeer(srv), id: 0, bound: map[uint64]bool{}}, {peer: newServerPeer(srv), id: 1, bound: map[uint64]bool{}}}
+		conns := []*k4Conn{{peer: newServerPeer(srv), id: 0, bound: map[uint64]bool{}, faultFid: -1}, {peer: newServerPeer(srv), id: 1, bound: map[uint64]bool{}, faultFid: -1}}
 		cfi := 0
 		if cf {
 			cfi = 1
@@ -258,6 +260,24 @@ func runK4(r *rng, n int, adversarial bool) {
 			default:
 				k4Bound = c.bound
 				t, m = genRequest(r, adversarial)
+				// after a request that failed inside the backend, often come back to the same fid at
+				// once: state left behind by a half-done request shows on the next use
+				if c.faultFid >= 0 && r.chance(1, 2) {
+					ft := []uint8{116, 12, 118, 24, 40, 120, 110, 26}[r.intn(8)]
+					fm, _ := p9.VerifNewMsg(ft)
+					for _, f := range p9.VerifFields(fm) {
+						switch {
+						case f.Path == "fid" || f.Path == "Directory":
+							f.Val.SetUint(uint64(c.faultFid))
+						case f.Path == "newFID":
+							f.Val.SetUint(k4Fids[r.intn(len(k4Fids))])
+						case f.Path == "Count":
+							f.Val.SetUint(uint64(r.intn(64)))
+						}
+					}
+					t, m = ft, fm
+				}
+				c.faultFid = -1
 				if len(c.bound) == 0 && r.chance(3, 4) {
 					// nothing bound (any more): attach again
 					t = 104
@@ -298,6 +318,15 @@ func runK4(r *rng, n int, adversarial bool) {
 				continue
 			}
 			tape, calls := be.takeLog()
+			if len(rhs) > 0 && rhs[0] == "rtyp=7" && len(tape) > 0 {
+				for _, fp := range []string{"fid", "Directory"} {
+					for _, f := range p9.VerifFields(m) {
+						if f.Path == fp {
+							c.faultFid = int64(f.Val.Uint())
+						}
+					}
+				}
+			}
 			lhs = append(lhs, fmt.Sprintf("tape=%d", len(tape)))
 			lhs = append(lhs, tape...)
 			rhs = append(rhs, calls...)
@@ -381,7 +410,7 @@ func runK13(r *rng, n int) {
 		be := newBackend(&rng{s: r.next()}, 0, 0, false)
 		be.fullReads = r.chance(2, 3)
 		srv := p9.NewServer(be)
-		c := &k4Conn{peer: newServerPeer(srv), id: 0, bound: map[uint64]bool{}}
+		c := &k4Conn{peer: newServerPeer(srv), id: 0, bound: map[uint64]bool{}, faultFid: -1}
 		emit("k4new cf=0 => ok")
 		stepK4(be, c, r, 100, mk(100, map[string]interface{}{"MSize": ms, "Version": "9P2000.L.Google.7"}))
 		stepK4(be, c, r, 104, mk(104, map[string]interface{}{"fid": uint64(0), "Auth.Authenticationfid": uint64(0xffffffff)}))
